@@ -311,4 +311,123 @@ theorem in_loop_eq (env : Env) (o : InOpts) (body : List Blk) : ∀ (fuel : Nat)
     · rw [inLoopGen, inLoop]
       simp only [show ¬ ((i : Int) < (sv.items.length : Int)) from by omega, if_false, hi, if_true]
 
+/-! ### the batched loop (`renderwb`) -/
+
+/-- what a pass of the batched loop stores before the element is fetched (the presets, the previous- / next-sequence
+information on the first / last displayed element, `sequence-end`) is the interpreter's `batchStep` -/
+theorem batchPre_eq (sv : SeqVars) (w : BWin) (i : Nat) : inBatchPreGen sv w i = batchStep sv w i := by
+  have e1 : ((i : Int) = (w.first : Int)) ↔ i = w.first := by omega
+  have e2 : ((i : Int) = (w.stop : Int) - 1) ↔ i + 1 = w.stop := by omega
+  have e3 : ((w.first : Int) > 0) ↔ w.first > 0 := by omega
+  have e4 : ∀ n : Nat, (-(n : Int) ≤ (w.stop : Int) ∧ (w.stop : Int) < (n : Int)) ↔ w.stop < n := by
+    intro n; omega
+  simp only [inBatchPreGen, batchStep, batchInfo, prevInfo, nextInfo, moreAfter, seqHas, e1, e2, e3, e4]
+  by_cases h1 : i = w.first <;> by_cases h2 : i + 1 = w.stop <;> by_cases h3 : w.first > 0 <;> simp [h1, h2, h3]
+
+theorem afterItem_eq (sv : SeqVars) (w : BWin) (i : Nat) :
+    (if (i : Int) = (w.first : Int) then { sv with started := false } else sv) = afterItem sv w i := by
+  have e1 : ((i : Int) = (w.first : Int)) ↔ i = w.first := by omega
+  simp only [afterItem, e1, beq_iff_eq]
+
+/-- the statements of a batched pass after the element is fetched = `inIter` on the updated variables, then `afterItem` -/
+theorem afterItem_eq2 (sv : SeqVars) (w : BWin) (i j : Nat) :
+    (if (i : Int) = (w.first : Int) then { sv with index := j, started := false } else { sv with index := j }) =
+      afterItem { sv with index := j } w i := afterItem_eq { sv with index := j } w i
+
+theorem inBatchItemGen_spec (env : Env) (fuel : Nat) (o : InOpts) (w : BWin) (body : List Blk) (sv : SeqVars) (i : Nat) (x : Val)
+    (st : St) (hx : sv.items[i]? = some x) :
+    inBatchItemGen env fuel o w body sv i x st =
+      (match inIter env fuel { sv with index := i } o body i (syncVars { sv with index := i } st) with
+       | (.ok p, st2) => .item p (afterItem { sv with index := i } w i) st2
+       | (.raise e, st2) => .stop (.raise e) st2
+       | (.ret v, st2) => .stop (.ret v) st2
+       | (.oom, st2) => .stop .oom st2) := by
+  have h := renderItem_eq_inIter env fuel o body { sv with index := i } i x (syncVars { sv with index := i } st) hx
+  simp only at h
+  unfold inBatchItemGen
+  simp only [h, ← afterItem_eq2]
+  rfl
+
+theorem batch_tail (env : Env) (fuel : Nat) (o : InOpts) (w : BWin) (body : List Blk) (svN : SeqVars) (i : Nat) (r : Res Piece × St) :
+    (match r with
+      | (.ok p, st2) =>
+        (match inLoopB env fuel (afterItem svN w i) o w body (i + 1) st2 with
+         | (.ok ps, st3) => (.ok (p :: ps), st3)
+         | r => r)
+      | (.raise e, st2) => (.raise e, st2)
+      | (.ret v, st2) => (.ret v, st2)
+      | (.oom, st2) => (.oom, st2)) =
+    inCont (match r with
+      | (.ok p, st2) => Step.item p (afterItem svN w i) st2
+      | (.raise e, st2) => .stop (.raise e) st2
+      | (.ret v, st2) => .stop (.ret v) st2
+      | (.oom, st2) => .stop .oom st2) (fun sv' st' => inLoopB env fuel sv' o w body (i + 1) st') := by
+  rcases r with ⟨r, st2⟩
+  cases r <;> simp only [inCont] <;> rfl
+
+/-- one pass of the batched loop is one unfolding of `inLoopB` -/
+theorem in_batch_step_eq (env : Env) (fuel : Nat) (o : InOpts) (w : BWin) (body : List Blk) (sv : SeqVars) (i : Nat) (st : St)
+    (hw : i < w.stop) (hi : i < (batchStep sv w i).items.length) :
+    inLoopB env (fuel + 1) sv o w body i st =
+      inCont (inBatchStepGen env fuel o w body sv i st) (fun sv' st' => inLoopB env fuel sv' o w body (i + 1) st') := by
+  rw [inLoopB]
+  simp only [show ¬ (i ≥ w.stop) from by omega, if_false]
+  unfold inBatchStepGen
+  simp only [batchPre_eq]
+  generalize batchStep sv w i = sv1 at hi ⊢
+  have hx : sv1.items[i]? = some (seqGetitem sv1 i) := getElem?_of_lt sv1 i hi
+  by_cases hden : itemDenied env sv1 i = true
+  · have hg : env.guardOn = true := by
+      simp only [itemDenied, Bool.and_eq_true] at hden
+      exact hden.1
+    simp only [hg, hden, if_true, guardedGetitem, afterItem_eq]
+    by_cases hsk : o.skipUnauth = true
+    · simp only [hsk, if_true, inCont]
+    · simp only [hsk, inCont]
+      rfl
+  · have hden' : itemDenied env sv1 i = false := by simpa using hden
+    by_cases hg : env.guardOn = true
+    · simp only [hg, hden', if_true, guardedGetitem, Bool.false_eq_true, if_false]
+      rw [inBatchItemGen_spec env fuel o w body sv1 i _ _ hx]
+      exact batch_tail env fuel o w body { sv1 with index := i } i _
+    · simp only [hg, hden', Bool.false_eq_true, if_false]
+      rw [inBatchItemGen_spec env fuel o w body sv1 i _ _ hx]
+      exact batch_tail env fuel o w body { sv1 with index := i } i _
+
+/-- the variables a batched pass hands on hold the same sequence -/
+theorem batch_step_items (env : Env) (fuel : Nat) (o : InOpts) (w : BWin) (body : List Blk) (sv : SeqVars) (i : Nat) (st : St)
+    (hi : i < (batchStep sv w i).items.length) (sv' : SeqVars)
+    (h : stepVars (inBatchStepGen env fuel o w body sv i st) = some sv') : sv'.items = (batchStep sv w i).items := by
+  unfold inBatchStepGen at h
+  simp only [batchPre_eq] at h
+  generalize batchStep sv w i = sv1 at hi h ⊢
+  have hx : sv1.items[i]? = some (seqGetitem sv1 i) := getElem?_of_lt sv1 i hi
+  have key : ∀ (x : Val) (st0 : St), stepVars (inBatchItemGen env fuel o w body sv1 i (seqGetitem sv1 i) st0) = some sv' →
+      sv'.items = sv1.items := by
+    intro _ st0
+    rw [inBatchItemGen_spec env fuel o w body sv1 i _ _ hx]
+    generalize inIter env fuel _ o body i _ = r
+    rcases r with ⟨r, st2⟩
+    cases r with
+    | ok p =>
+      simp only [stepVars, Option.some.injEq]
+      intro h; subst h
+      simp only [afterItem]; split <;> rfl
+    | raise e => simp [stepVars]
+    | ret v => simp [stepVars]
+    | oom => simp [stepVars]
+  by_cases hg : env.guardOn = true
+  · by_cases hden : itemDenied env sv1 i = true
+    · simp only [hg, hden, if_true, guardedGetitem, afterItem_eq] at h
+      by_cases hsk : o.skipUnauth = true
+      · simp only [hsk, if_true, stepVars, Option.some.injEq] at h
+        subst h
+        simp only [afterItem]; split <;> rfl
+      · simp [hsk, stepVars] at h
+    · have hden' : itemDenied env sv1 i = false := by simpa using hden
+      simp only [hg, hden', if_true, guardedGetitem, Bool.false_eq_true, if_false] at h
+      exact key .none _ h
+  · simp only [hg, Bool.false_eq_true, if_false] at h
+    exact key .none _ h
+
 end DTML.Lemmas.InGen
